@@ -7,7 +7,7 @@ from props import rwcommon as rc
 ID = "C03"
 PROP_FILE = "props/C03.v"
 COQ_TARGETS = ["props/C03.v"]
-THEOREMS = ["C03_proj_sound", "C03_only_subscribed", "C03_kept_sites_all", "C03_rw_frag_canonical", "C03_rw_frag_proj", "C03_frag_projection"]
+THEOREMS = ["C03_proj_sound", "C03_only_subscribed", "C03_kept_sites_all", "C03_rw_frag_canonical", "C03_rw_frag_proj", "C03_frag_projection", "C03_prog_projection"]
 TRUSTED_BASE = [
     "Coq 8.16.1 kernel, vm_compute for the per-pair projection certificates",
     "tools/impl/astexport.py (AST -> Coq term, interning shared by the two rewrites, id canonicalisation), tools/translators/gen_pyast.py + gen_events.py",
@@ -236,7 +236,7 @@ def run(ctx, model_ok):
     if model_ok:
         from props import rwfrag
         ksem = rwfrag.check_sem(ctx, rng, 30 if ctx.tier == "quick" else 300)
-    return {
+    res = {
         "evaluations": len(cases),
         "distinct_nontrivial": len({lib.digest(c) for c, im in zip(cases, impl)
                                     if "configs" in im and "streams" in im["configs"][0] and len(im["configs"][0]["streams"][0]) >= 3}),
@@ -249,8 +249,16 @@ def run(ctx, model_ok):
                          "programs_raising": sum(1 for im in impl if "configs" in im and im["configs"][0].get("exc"))},
         "failures": failures, "extra": {"certificate_failures": len(bad)},
     }
+    if model_ok:
+        # loops and functions (model/FragProg.v, theorem C03_prog_projection) against the real rewriter, CPython and the real runtime
+        from props import fragprog
+        fragprog.run_into(ctx, rng, res, 16 if ctx.tier == "quick" else 300)
+    return res
 
 
 def replay(ctx, rep):
     case = (rep.get("failure") or {}).get("case")
+    if case and case.get("frag") == "prog":
+        from props import fragprog
+        return fragprog.replay_case(case)
     return fails_on_impl(case) if case else None
